@@ -268,8 +268,83 @@ type WaitGroup struct{ sync.WaitGroup }
 // mentions a package-level variable that is written somewhere in the package.
 func Access(name string, write bool) {
 	if rt := active; rt != nil {
+		if rt.skipRead(name, write) {
+			return
+		}
 		rt.point(op{kind: opAccess, name: name, write: write})
 	}
+}
+
+// knownWritten is the set of probe names (without object identity) that some
+// explored execution of the current scenario has written. Reads of every other
+// name are not scheduling points: as long as a variable is never written, reads
+// of it commute with everything and return its initial value, so leaving them
+// out loses no behaviour. The assumption is checked, not trusted: a write to a
+// name outside the set is recorded, the name is added and the exploration of
+// the scenario starts again (a fixpoint; by induction on the first such write
+// of a hypothetical missed execution, the final exploration is complete).
+var knownWritten = map[string]bool{}
+
+func (rt *runtime) skipRead(name string, write bool) bool {
+	if knownWritten[name] {
+		return false
+	}
+	if write {
+		rt.x.NewlyWritten = append(rt.x.NewlyWritten, name)
+		return false
+	}
+	rt.x.SkippedReads++
+	return true
+}
+
+// AccessObj is the field-level variant: obj is the address of the receiver's
+// field, name is "Type.field". Objects are identified by (thread that touched
+// them first, how many objects that thread had touched before), which is the
+// same in every execution in which that thread behaves the same. As long as
+// only one thread touches an object its accesses commute with everything and
+// are not scheduling points; the assumption is checked: the first access by a
+// second thread is recorded, the object is marked shared and the exploration
+// of the scenario starts again (same fixpoint argument as for knownWritten).
+func AccessObj(obj interface{}, name string, write bool) {
+	rt := active
+	if rt == nil || rt.cur == nil {
+		return
+	}
+	info := rt.objInfo(obj)
+	if !sharedObjs[info.ident] {
+		if rt.cur.id != info.owner {
+			rt.x.NewlyWritten = append(rt.x.NewlyWritten, "obj:"+info.ident)
+		}
+		rt.x.SkippedReads++
+		return
+	}
+	if rt.skipRead(name, write) {
+		return
+	}
+	rt.point(op{kind: opAccess, name: name + "@" + info.ident, write: write})
+}
+
+var sharedObjs = map[string]bool{}
+
+type objInfo struct {
+	ident string
+	owner int
+}
+
+func (rt *runtime) objInfo(obj interface{}) *objInfo {
+	p := reflect.ValueOf(obj).Pointer()
+	if rt.objs == nil {
+		rt.objs = map[uintptr]*objInfo{}
+	}
+	info, ok := rt.objs[p]
+	if !ok {
+		t := rt.cur
+		t.objSeq++
+		info = &objInfo{ident: fmt.Sprintf("%s#%d", t.name, t.objSeq), owner: t.id}
+		rt.objs[p] = info
+		rt.keep = append(rt.keep, obj) // no address reuse within one execution
+	}
+	return info
 }
 
 // Yield is an explicit scheduling point (used by verif hooks and harness callbacks).
@@ -359,6 +434,7 @@ type thread struct {
 	steps   int
 	panic   interface{}
 	obsHash uint64 // hash of everything the thread has observed of the shared state so far
+	objSeq  int    // objects this thread was the first to touch
 }
 
 type lockState struct {
@@ -392,17 +468,19 @@ type Point struct {
 
 // Execution is the record of one run of a scenario under one schedule.
 type Execution struct {
-	Choices   []int
-	Points    []Point
-	Races     []string
-	Deadlock  string
-	LockError string
-	Diverged  string
-	Panics    []string
-	Obs       map[string][]string // thread name -> observations
-	Trace     []string
-	Horizon   bool
-	Keys      []string // canonical global state before each scheduling decision (for state-key pruning)
+	Choices      []int
+	Points       []Point
+	Races        []string
+	Deadlock     string
+	LockError    string
+	Diverged     string
+	Panics       []string
+	Obs          map[string][]string // thread name -> observations
+	Trace        []string
+	Horizon      bool
+	Keys         []string // canonical global state before each scheduling decision (for state-key pruning)
+	NewlyWritten []string // probe names written although assumed never written (see knownWritten)
+	SkippedReads int
 }
 
 type runtime struct {
@@ -412,6 +490,8 @@ type runtime struct {
 	yield     chan struct{}
 	locks     map[interface{}]*lockState
 	lockOrder []interface{}
+	objs      map[uintptr]*objInfo
+	keep      []interface{}
 	vars      map[string]*varState
 	prefix    []int
 	x         *Execution
@@ -737,7 +817,10 @@ type Result struct {
 	SampleTrace     []string
 	InterleavedRuns int // executions with at least one context switch between threads before either finished
 	BudgetExhausted bool
-	States          int // distinct global states (state-key pruning)
+	States          int      // distinct global states (state-key pruning)
+	WrittenNames    []string // probe names some execution wrote (reads of all others were not scheduling points)
+	Rounds          int
+	SkippedReads    int
 }
 
 func preemptions(x *Execution, upto int) int {
@@ -754,6 +837,38 @@ func preemptions(x *Execution, upto int) int {
 // preemptions (iteratively 0,1,..), stopping early when the budget of
 // executions is exhausted (then BoundCompleted tells what was fully covered).
 func Explore(sc Scenario, maxBound int, budget int) Result {
+	return fixpoint(func() (Result, []string) { return explore1(sc, maxBound, budget) })
+}
+
+// fixpoint restarts an exploration until no execution writes a name assumed never written.
+func fixpoint(f func() (Result, []string)) Result {
+	knownWritten = map[string]bool{}
+	sharedObjs = map[string]bool{}
+	for round := 1; ; round++ {
+		res, nw := f()
+		if len(nw) == 0 {
+			for k := range knownWritten {
+				res.WrittenNames = append(res.WrittenNames, k)
+			}
+			for k := range sharedObjs {
+				res.WrittenNames = append(res.WrittenNames, "shared object "+k)
+			}
+			sort.Strings(res.WrittenNames)
+			res.Rounds = round
+			return res
+		}
+		for _, n := range nw {
+			if strings.HasPrefix(n, "obj:") {
+				sharedObjs[strings.TrimPrefix(n, "obj:")] = true
+			} else {
+				knownWritten[n] = true
+			}
+		}
+	}
+}
+
+func explore1(sc Scenario, maxBound int, budget int) (Result, []string) {
+	var newly []string
 	res := Result{Scenario: sc.Name, Outcomes: map[string]int{}, Findings: map[string]*Finding{}, BoundCompleted: -1}
 	for bound := 0; bound <= maxBound; bound++ {
 		count := 0
@@ -764,8 +879,16 @@ func Explore(sc Scenario, maxBound int, budget int) Result {
 				complete = false
 				return
 			}
+			if len(newly) > 0 {
+				return
+			}
 			sc.Setup()
 			x := run(sc.Threads(), prefix, 10000)
+			res.SkippedReads += x.SkippedReads
+			if len(x.NewlyWritten) > 0 {
+				newly = append(newly, x.NewlyWritten...)
+				return
+			}
 			// only executions with exactly `bound` preemptions are new at this bound
 			isNew := preemptions(x, len(x.Points)) == bound
 			if isNew {
@@ -789,6 +912,9 @@ func Explore(sc Scenario, maxBound int, budget int) Result {
 			}
 		}
 		rec(nil)
+		if len(newly) > 0 {
+			return res, newly
+		}
 		res.Schedules += count
 		res.SchedulesByBnd = append(res.SchedulesByBnd, count)
 		if !complete {
@@ -797,7 +923,7 @@ func Explore(sc Scenario, maxBound int, budget int) Result {
 		}
 		res.BoundCompleted = bound
 	}
-	return res
+	return res, nil
 }
 
 // ExploreAll enumerates the interleavings of the scenario without a
@@ -806,6 +932,11 @@ func Explore(sc Scenario, maxBound int, budget int) Result {
 // reached (depth-first, so the first visit explores the whole subtree). The
 // result is complete (Unbounded = true) unless the budget of executions is hit.
 func ExploreAll(sc Scenario, budget int) Result {
+	return fixpoint(func() (Result, []string) { return exploreAll1(sc, budget) })
+}
+
+func exploreAll1(sc Scenario, budget int) (Result, []string) {
+	var newly []string
 	res := Result{Scenario: sc.Name, Outcomes: map[string]int{}, Findings: map[string]*Finding{}, BoundCompleted: -1}
 	seen := map[string]bool{}
 	complete := true
@@ -815,8 +946,16 @@ func ExploreAll(sc Scenario, budget int) Result {
 			complete = false
 			return
 		}
+		if len(newly) > 0 {
+			return
+		}
 		sc.Setup()
 		x := run(sc.Threads(), prefix, 10000)
+		res.SkippedReads += x.SkippedReads
+		if len(x.NewlyWritten) > 0 {
+			newly = append(newly, x.NewlyWritten...)
+			return
+		}
 		res.Schedules++
 		judge(sc, x, &res)
 		for i := len(prefix); i < len(x.Points); i++ {
@@ -835,7 +974,7 @@ func ExploreAll(sc Scenario, budget int) Result {
 	res.Unbounded = complete
 	res.BudgetExhausted = !complete
 	res.States = len(seen)
-	return res
+	return res, newly
 }
 
 func judge(sc Scenario, x *Execution, res *Result) {
